@@ -47,6 +47,8 @@ structure Schema where
   minItems : Option Nat := none
   maxItems : Option Nat := none
   unique : Bool := false
+  minProps : Option Nat := none
+  maxProps : Option Nat := none
   props : List (String × Schema) := []
   required : List String := []
   addl : Option Schema := none      -- additionalProperties: schema (true/absent: none, anything goes)
@@ -124,6 +126,18 @@ def addlOk (rec : Schema → J → Bool) (s : Schema) (kvs : List (String × J))
   | some a => kvs.all (fun kv => (lookup s.props kv.1).isSome || (match kv.2 with | .null => true | _ => false) || rec a kv.2)
   | none => true
 
+/-- minProperties / maxProperties.  A JSON null of an optional declared property counts as "absent" (the null reading, in both
+    semantics); under the relaxed reading so does its explicit zero value — the generated validator counts the members of
+    the re-marshalled struct, from which omitempty has removed them. -/
+def countedMembers (skip : Bool) (s : Schema) (kvs : List (String × J)) : Nat :=
+  (kvs.filter (fun kv =>
+    !(((lookup s.props kv.1).isSome && !s.required.contains kv.1) &&
+      ((match kv.2 with | .null => true | _ => false) || (skip && isZero kv.2))))).length
+
+def countOk (skip : Bool) (s : Schema) (kvs : List (String × J)) : Bool :=
+  (match s.minProps with | some k => decide (k ≤ countedMembers skip s kvs) | none => true) &&
+  (match s.maxProps with | some k => decide (countedMembers skip s kvs ≤ k) | none => true)
+
 /-- Validity.  `skip = true` applies the documented relaxation wherever it may apply: an explicit zero value of an
     optional property is treated as if the property were absent, and so is the zero value of a required property that is
     read-only or has a default (then the property counts as missing). -/
@@ -142,7 +156,7 @@ def validG (skip : Bool) (d : Defs) : Nat → Schema → J → Bool
       (match s.items with | some it => l.all (fun x => validG skip d n it x) | none => true)
     | .obj kvs =>
       localOk n s j && s.allOf.all (fun a => validG skip d n a j) &&
-      reqOk skip s kvs && propsOk skip (validG skip d n) s kvs && addlOk (validG skip d n) s kvs
+      reqOk skip s kvs && propsOk skip (validG skip d n) s kvs && addlOk (validG skip d n) s kvs && countOk skip s kvs
     | _ => localOk n s j && s.allOf.all (fun a => validG skip d n a j)
 
 abbrev valid := validG false
